@@ -8,6 +8,7 @@
 -/
 import TypedpyModel.Drive.Wire
 import TypedpyModel.Sem.Derive
+import TypedpyModel.Sem.DefineBridge
 import TypedpyModel.Spec.FieldSet
 namespace Typedpy.Drive.Define
 open Lean (Json)
@@ -148,6 +149,53 @@ def classToJson (c : ClassDef) : Json :=
     ("sigReq", strsJ (sortStr c.sig.req)), ("sigOpt", strsJ c.sig.opt), ("kwargs", .bool c.sig.kwargs),
     ("ignoreNone", .bool c.ignoreNone), ("immutable", .bool c.immutable), ("addl", .bool c.addl)]
 
+/-- the bridge's `FieldDecl.struct` of a class (Sem/DefineBridge.lean), with the parts `declToJson`
+    does not print: field order, `immFields`, `defOrder`, `accepts` -/
+def structToJson (w : World) (c : ClassDef) (reqOrder : List String) : Json :=
+  let accepts := w.subclassNames c.name
+  match c.toStruct reqOrder accepts with
+  | .struct o fields defaults =>
+    Json.mkObj [("decl", declToJson (.struct o fields defaults)),
+                ("order", strsJ (fields.map (·.1))), ("immFields", strsJ (sortStr o.immFields)),
+                ("defOrder", strsJ o.defOrder), ("accepts", strsJ (sortStr o.accepts))]
+  | _ => .null
+
+/-- exception classes of every failing step of `cls(**kw)` (collect-all view): which of several
+    errors surfaces first depends on the order the real constructor works in -/
+def ctorErrs (O : Oracles) (c : ClassDef) (kw : List (String × PyVal)) : List String :=
+  (if c.isAbstract then ["TypeError"] else [])
+  ++ (if !bindOk c.opts (Bridge.defOrder c) kw then ["TypeError"] else [])
+  ++ (if !c.addl && undeclaredKw c kw then ["ValueError"] else [])
+  ++ (if kw.any (fun a => (lookup a.1 c.constants).isSome) then ["ValueError"] else [])
+  ++ (Bridge.fieldDecls c).filterMap fun (name, f) =>
+      match argFor c.opts (Bridge.defaults c) kw name with
+      | none => none
+      | some v => match validate O f v with
+        | .ok _ => none
+        | .error e => some (errName e)
+
+/-- optional `"ctor"`: keyword-argument lists to construct the freshly made class with; `"reqOrder"`:
+    the order of the required parameters in the real signature (the set-order oracle) -/
+def ctorPart (O : Oracles) (w : World) (j : Json) (r : R ClassDef) : Except String (List (String × Json)) := do
+  match r with
+  | .error _ => pure []
+  | .ok c =>
+    let w' := w.add c
+    let ord ← match optField j "reqOrder" with
+      | none => pure c.sig.req
+      | some _ => strList j "reqOrder"
+    let kws ← match optField j "ctor" with
+      | none => pure []
+      | some x => (← x.getArr?).toList.mapM kwOfJson
+    let res := kws.map fun kw =>
+      Json.mkObj [("res", resToJson (instantiateOrd O c ord kw)),
+                  ("errs", strsJ (ctorErrs O c kw ++ ctorErrs O c (mappingArgs c kw))),
+                  ("via", Json.mkObj (Entry.all.map fun e =>
+                    (e.name, match instantiateVia O c ord e kw with
+                      | .ok _ => Json.str "ok"
+                      | .error err => Json.str (errName err))))]
+    pure [("struct", structToJson w' c ord), ("ctor", Json.arr res.toArray)]
+
 def rJson {α} (f : α → Json) : R α → Json
   | .ok x => Json.mkObj [("ok", f x)]
   | .error e => Json.mkObj [("err", .str (errName e))]
@@ -172,7 +220,11 @@ def step (O : Oracles) (s : St) (j : Json) : Except String St := do
   | "define" =>
     let src ← srcOfJson (← j.getObjVal? "src")
     let r := defineClass O s.w src
-    pure { s with w := stepWorld O s.w (.define src), out := s.out ++ [rJson classToJson r] }
+    let extra ← ctorPart O s.w j r
+    let base := match r with
+      | .ok c => [("ok", classToJson c)]
+      | .error e => [("err", Json.str (errName e))]
+    pure { s with w := stepWorld O s.w (.define src), out := s.out ++ [Json.mkObj (base ++ extra)] }
   | "mixin" =>
     let n ← (← j.getObjVal? "name").getStr?
     pure { s with w := s.w.add (mixinDef n), out := s.out ++ [Json.mkObj [("ok", .null)]] }
@@ -198,7 +250,8 @@ def step (O : Oracles) (s : St) (j : Json) : Except String St := do
     let base := match r with
       | .ok c => [("ok", classToJson c)]
       | .error e => [("err", Json.str (errName e))]
-    pure { s with w := stepWorld O s.w st, out := s.out ++ [Json.mkObj (base ++ spec)] }
+    let extra ← ctorPart O s.w j r
+    pure { s with w := stepWorld O s.w st, out := s.out ++ [Json.mkObj (base ++ spec ++ extra)] }
   | "fieldclass" =>
     let n ← (← j.getObjVal? "name").getStr?
     let bases ← strList j "bases"
@@ -209,7 +262,15 @@ def step (O : Oracles) (s : St) (j : Json) : Except String St := do
     let n ← (← j.getObjVal? "cls").getStr?
     let kw ← kwOfJson (← j.getObjVal? "kw")
     match s.w.find n with
-    | some c => pure { s with out := s.out ++ [resToJson (instantiate O c kw)] }
+    | some c =>
+      let via := Json.mkObj (Entry.all.map fun e =>
+        (e.name, match instantiateVia O c c.sig.req e kw with
+          | .ok _ => Json.str "ok"
+          | .error err => Json.str (errName err)))
+      let base := match instantiate O c kw with
+        | .ok v => [("ok", valToJson v)]
+        | .error e => [("err", Json.str (errName e))]
+      pure { s with out := s.out ++ [Json.mkObj (base ++ [("via", via)])] }
     | none => pure { s with out := s.out ++ [Json.mkObj [("err", .str "model-domain: unknown class")]] }
   | "assign" =>
     let n ← (← j.getObjVal? "cls").getStr?
@@ -233,6 +294,9 @@ def run (j : Json) : Except String Json := do
   let init : St := { w := { World.init with blockConsts := bc, blockNonTypedpy := bn },
                      fw := fieldWorldInit, out := [] }
   let fin ← steps.toList.foldlM (step O) init
-  pure (Json.mkObj [("steps", Json.arr fin.out.toArray)])
+  -- `accepts` (the class and its subclasses) of every class, from the final world
+  let acc := fin.w.classes.filter (fun c => c.isStruct) |>.map fun c =>
+    Json.arr #[.str c.name, strsJ (sortStr (fin.w.subclassNames c.name))]
+  pure (Json.mkObj [("steps", Json.arr fin.out.toArray), ("accepts", Json.arr acc.toArray)])
 
 end Typedpy.Drive.Define
